@@ -169,6 +169,15 @@ class Unknown(Token):
     """
 
 
+def _is_symbol(tok, spelling):
+    """
+    Return True if tok is the punctuator or operator with this spelling.
+    A character or string constant with the same content ("," '(' "##")
+    is not.
+    """
+    return isinstance(tok, (Punctuator, Operator)) and tok.token == spelling
+
+
 class Lexer:
     """
     A lexer for the C preprocessor grammar.
@@ -1385,9 +1394,9 @@ class Macro:
         self.replacement = replacement
 
         if isinstance(self.replacement, list) and len(self.replacement) > 0:
-            if self.replacement[0].token == "##":
+            if _is_symbol(self.replacement[0], "##"):
                 raise RuntimeError("Found ## operator at start of replacement")
-            elif self.replacement[-1].token == "##":
+            elif _is_symbol(self.replacement[-1], "##"):
                 raise RuntimeError("Found ## operator at end of replacement")
             self.replacement[0].prev_white = False
             self.preproc_replacement()
@@ -1407,7 +1416,7 @@ class Macro:
 
         while idx < len(self.replacement):
             tok = self.replacement[idx]
-            if tok.token == "##":
+            if _is_symbol(tok, "##"):
                 last = res_tokens.pop()
                 arg_idx = self.which_arg(last.token)
                 if arg_idx != -1:
@@ -1433,7 +1442,7 @@ class Macro:
                         f"Invalid concatenation: {lex.string}",
                     )
                 tok.prev_white = last.prev_white
-            elif tok.token == "#":
+            elif _is_symbol(tok, "#"):
                 if isinstance(self, MacroFunction):
                     self.has_strcat = True
             elif isinstance(tok, Identifier):
@@ -1553,7 +1562,7 @@ class MacroFunction(Macro):
             while idx < len(self.replacement):
                 tok = self.replacement[idx]
                 mark_from = len(res_tokens)
-                if tok.token == "##" and last_cat and empty_cat:
+                if _is_symbol(tok, "##") and last_cat and empty_cat:
                     # The previous concatenation produced no token at all,
                     # so there is nothing to paste onto.
                     idx += 1
@@ -1565,7 +1574,7 @@ class MacroFunction(Macro):
                         nexttok = [nexttok]
                     res_tokens.extend(nexttok)
                     empty_cat = len(nexttok) == 0
-                elif tok.token == "##":
+                elif _is_symbol(tok, "##"):
                     last = res_tokens.pop()
                     mark_from -= 1
                     prev_white = last.prev_white
@@ -1606,7 +1615,7 @@ class MacroFunction(Macro):
                         res_tokens.extend(nexttok)
                     last_cat = True
                     empty_cat = len(last) == 0 and len(nexttok) == 0
-                elif tok.token == "#":
+                elif _is_symbol(tok, "#"):
                     prev_white = tok.prev_white
                     idx += 1
                     if idx == len(self.replacement):
@@ -1893,7 +1902,7 @@ class MacroExpander:
 
                 if isinstance(macro_lookup, MacroFunction):
                     paren = self.peek_tok()
-                    if not paren or paren.token != "(":
+                    if not paren or not _is_symbol(paren, "("):
                         self.parser_stack[-1].pos -= 1
                         self.replace_tok(ctok)
                         continue
@@ -1906,15 +1915,15 @@ class MacroExpander:
 
                     while True:
                         tok = self.consume_tok()
-                        if tok.token == "," and open_paren_count == 1:
+                        if _is_symbol(tok, ",") and open_paren_count == 1:
                             args.append(current_arg)
                             separators.append(tok)
                             current_arg = []
                             continue
 
-                        if tok.token == "(":
+                        if _is_symbol(tok, "("):
                             open_paren_count += 1
-                        elif tok.token == ")":
+                        elif _is_symbol(tok, ")"):
                             open_paren_count -= 1
                             if open_paren_count == 0:
                                 args.append(current_arg)
